@@ -497,7 +497,7 @@ class Interp:
         self.call(('user', idx), args)
 
 
-def run(eprog, argv=(), W=2, checked=True, max_steps=400000, max_runs=4000, uninit=None):
+def run(eprog, argv=(), W=2, checked=True, max_steps=400000, max_runs=4000, uninit=None, trace_all=None):
     """Return (status, trace, info).  status: 'ok' (trace is the canonical committed trace),
     'halt' (committed defeat: forbidden by C03), 'budget' (inconclusive)."""
     from ..svm import canon_trace
@@ -520,9 +520,13 @@ def run(eprog, argv=(), W=2, checked=True, max_steps=400000, max_runs=4000, unin
             except Forever as f:
                 pre, period = it.ev[:f.ev_index], tuple(it.ev[f.ev_index:])
             total_steps += it.steps
+            if trace_all is not None:
+                trace_all.append(list(it.ev))
             return 'ok', canon_trace(pre, period), {'runs': runs, 'steps': total_steps, 'decisions': it.dec[:it.ci]}
         except Fail:
             total_steps += it.steps
+            if trace_all is not None:
+                trace_all.append(list(it.ev))
             d = it.dec[:it.ci]
             while d and d[-1] is False:
                 d.pop()
